@@ -674,6 +674,14 @@ impl Error
 		}
 	}
 
+	/// Verification hook: expose the primary location of this error
+	/// (the one used for sorting and as the anchor of the rendered report).
+	#[cfg(penne_verif)]
+	pub fn verif_primary_location(&self) -> &Location
+	{
+		self.location()
+	}
+
 	#[cfg_attr(coverage, no_coverage)]
 	#[cfg(not(tarpaulin_include))]
 	fn location(&self) -> &Location
